@@ -1047,6 +1047,24 @@ void strip_quote_markers_from_block(mmd_engine * e, token * block) {
 }
 
 
+/// The opening fence of YAML metadata needs at least three dashes (as scan_meta_line()
+/// requires); a shorter line of dashes is an ordinary Setext underline.
+static bool line_is_yaml_fence(const char * c) {
+	size_t i = 0;
+	size_t dashes = 0;
+
+	while ((i < 3) && ((c[i] == ' ') || (c[i] == '\240'))) {
+		i++;
+	}
+
+	while (c[i + dashes] == '-') {
+		dashes++;
+	}
+
+	return dashes >= 3;
+}
+
+
 /// Create a token chain from source string
 /// stop_on_empty_line allows us to stop parsing part of the way through
 token * mmd_tokenize_string(mmd_engine * e, size_t start, size_t len, bool stop_on_empty_line) {
@@ -1145,7 +1163,8 @@ token * mmd_tokenize_string(mmd_engine * e, size_t start, size_t len, bool stop_
 
 				// If this is first line, do we have proper metadata?
 				if (e->allow_meta && root->child == line) {
-					if (line->type == LINE_SETEXT_2) {
+					if ((line->type == LINE_SETEXT_2) &&
+							line_is_yaml_fence(&e->dstr->str[line->start])) {
 						line->type = LINE_YAML;
 					} else if (
 						(line->type == LINE_META) &&
